@@ -87,6 +87,9 @@ def run(ck):
     one_line(ck, one)
     handler_protocol(ck)
     per_call_answers(ck, (ini, one))
+    ck.rule("C19-O7", "what an output prints is the formatter's text whenever a formatter ran, the empty text included: formattedMessage()/isFormatted() distinguish 'null' (nothing formatted) from 'empty'")
+    from rules.c01 import logmessage
+    logmessage(ck, "C19-O7")
     front_ends_forward(ck)
 
 
